@@ -30,6 +30,8 @@ func main() {
 		genCoseRead(r, "COSEREAD")
 	case "C20":
 		genC20(r)
+	case "SIGN", "C08", "C16":
+		genSign(r, *prop)
 	case "C02":
 		genC02(r)
 	case "C01", "C07", "C13":
